@@ -646,6 +646,9 @@ def config_list(pk, L, prop='C09'):
         c = 'cc' if cls == 'CliffordCircuit' else 'ct'
         for how in ('plain', 'layers-compiled', 'compiled'):
             out.append((c + '.' + how, cls, how, None))
+        if prop == 'C09':
+            # order of first use: one backward run (which makes gates derive and cache their missing maps) before forward
+            out.append((c + '.after-backward-run', cls, 'after-backward-run', None))
         if pk.has(cls, 'copy'):
             for how in ('copy', 'copy-of-compiled', 'copy-of-layers-compiled'):
                 out.append((c + '.' + how, cls, how, None))
@@ -692,6 +695,10 @@ def make(pk, cls, how, k, N, letters, step, fw=None, structs=None):
             pk.compile(a, N)
         return a
     circ, gates = build(pk, cls, N, letters, on_take=on_take)
+    if how == 'after-backward-run':
+        step[0] = 'backward'
+        circ.backward(pk.fresh(pk.inputs(N)[0]))
+        return circ
     if how in ('layers-compiled', 'copy-of-layers-compiled'):
         step[0] = 'layer.compile'
         for lay in list(itertools.islice(circ.layers_forward(), CAP)):
